@@ -19,18 +19,18 @@ _bases = {}
 _key_locks = {}
 
 
-def build_base(ctx, entry, arch, witness=False, burst=4, desc=False):
+def build_base(ctx, entry, arch, witness=False, burst=4, desc=False, other=False):
     """ring.c for one entry point, compiled once with goto-cc against the real variant file, contract stubs installed."""
-    key = (entry, arch, witness, burst, desc)
+    key = (entry, arch, witness, burst, desc, other)
     with _base_lock:
         lk = _key_locks.setdefault(key, __import__('threading').Lock())
     with lk:
         if key in _bases:
             return _bases[key]
         inc = patched_header_dir(ctx, burst)
-        tag = 'ring_%s_%d_b%d%s%s' % (arch, entry, burst, '_w' if witness else '', '_d' if desc else '')
+        tag = 'ring_%s_%d_b%d%s%s' % (arch, entry, burst, '_w' if witness else '', ('_d' if desc else '') + ('_o' if other else ''))
         gb = os.path.join(ctx.scratch, tag + '.gb')
-        defs = ['-DENTRY=%d' % entry, '-DARCH_FILE="%s"' % ARCH_FILES[arch]] + (['-DWITNESS'] if witness else []) + (['-DCHECK_DESC'] if desc else [])
+        defs = ['-DENTRY=%d' % entry, '-DARCH_FILE="%s"' % ARCH_FILES[arch]] + (['-DWITNESS'] if witness else []) + (['-DCHECK_DESC'] if desc else []) + (['-DOTHER_MGR'] if other else [])
         gotocc(ctx, os.path.join(VERIF, 'cbmc', 'ring.c'), gb, defs=defs, incs=[inc], arch=arch)
         gi = os.path.join(ctx.scratch, tag + '.i.gb')
         cmd = ['goto-instrument']
@@ -66,7 +66,7 @@ def splits(entry, slots=8, burst=4):
     return [(-1, -2, -1)]
 
 
-def run_entries(ctx, entries, archs, unwind=None, timeout=1500, witness_for=(3, 8), burst=None, desc=False):
+def run_entries(ctx, entries, archs, unwind=None, timeout=1500, witness_for=(3, 8), burst=None, desc=False, other=False):
     for f in ('lib/include/mb_mgr_job_api.h', 'lib/include/mb_mgr_burst_async.h', 'lib/include/mb_mgr_code.h', 'lib/intel-ipsec-mb.h'):
         ctx.note_source(f)
     burst = burst or (2 if ctx.quick() else 4)
@@ -100,15 +100,15 @@ def run_entries(ctx, entries, archs, unwind=None, timeout=1500, witness_for=(3, 
 
     def one(w):
         a, e, wit, (n0, e0, nj, k0) = w
-        base = build_base(ctx, e, a, wit, burst, desc)
+        base = build_base(ctx, e, a, wit, burst, desc, other)
         q = link_cfg(ctx, base, n0, e0, nj, k0)
-        nm = '%sring step%s %s [%s]%s' % ('WITNESS ' if wit else '', ' +descriptor snapshot' if desc else '', ENTRIES[e], a,
+        nm = '%sring step%s %s [%s]%s' % ('WITNESS ' if wit else '', (' +descriptor snapshot' if desc else '') + (' +second manager untouched' if other else ''), ENTRIES[e], a,
                                         ('' if n0 < 0 else ' next_job=slot %d%s' % (n0, '' if nj < 0 else ', n_jobs=%d' % nj)) + ('' if k0 < 0 else ' snapshot slot %d' % k0))
         res, fails, log = cbmc(ctx, q, nm, unwind=unwind, timeout=timeout, expect='violated' if wit else 'discharged', trace=not wit)
         return w, res, fails, log
 
     # compile the bases first (one per entry/arch), in parallel, then the queries
-    pool_map(lambda k: build_base(ctx, k[1], k[0], k[2], burst, desc), sorted(set((w[0], w[1], w[2]) for w in work)), workers=NCPU)
+    pool_map(lambda k: build_base(ctx, k[1], k[0], k[2], burst, desc, other), sorted(set((w[0], w[1], w[2]) for w in work)), workers=NCPU)
     seen = set()
     for r in pool_map(one, work, workers=NCPU):
         if isinstance(r, Exception):
